@@ -34,7 +34,9 @@ BBS_TABLE = {
     'utils::util::bbsplus_utils::calculate_blind_challenge': [
         ('hash_to_scalar', ['len(generators)', 'generators', 'C', 'Cbar'], ['api_id', 'a:H2S'])],
     'bbsplus::keys::key_gen': [
-        ('hash_to_scalar', ['key_material', 'len(key_info)', 'key_info'], ['key_dst', 'a:API_ID', 'a:KEYGEN_DST'])],
+        # the DST is the caller's key_dst or, when absent, API_ID || KEYGEN_DST: each reaches the DST on the path that uses it (may-flow);
+        # that an absent key_dst selects the default is RF-A's business
+        ('hash_to_scalar', ['key_material', 'len(key_info)', 'key_info'], ['~key_dst', '~a:API_ID', '~a:KEYGEN_DST'])],
     'utils::util::bbsplus_utils::hash_to_scalar': [
         ('expand_message', ['msg_octects'], ['dst'])],
     'bbsplus::generators::create_generators': [
